@@ -49,6 +49,21 @@ fn string_wire_schema(g: &mut G) -> (String, Value, Vec<String>) {
                 probes.push(v.to_lowercase());
                 probes.push(format!("{v} "));
             }
+            // the same enumeration written member by member (each may carry a description)
+            if g.chance(1, 3) && vals.len() >= 2 {
+                let branches: Vec<Value> = vals
+                    .iter()
+                    .enumerate()
+                    .map(|(i, v)| {
+                        let mut b = if i % 2 == 0 { json!({"type": "string", "enum": [v]}) } else { json!({"const": v}) };
+                        if g.chance(2, 3) {
+                            b["description"] = json!(format!("member number {i}"));
+                        }
+                        b
+                    })
+                    .collect();
+                return ("described-enum".into(), json!({"oneOf": branches}), probes);
+            }
             ("simple-enum".into(), json!({"type": "string", "enum": vals}), probes)
         }
         2 => ("plain-string".into(), json!({"type": "string"}), vec!["".into(), "abc".into(), "名".into()]),
@@ -195,6 +210,14 @@ impl Property for C11 {
                 None => return false,
             };
             if let Some(bs) = o.get("oneOf").and_then(|b| b.as_array()) {
+                let member = |b: &Value| -> bool {
+                    let Some(m) = b.as_object() else { return false };
+                    m.keys().all(|k| matches!(k.as_str(), "type" | "enum" | "const" | "description"))
+                        && (m.get("const").map(|c| c.is_string()).unwrap_or(false) || m.get("enum").and_then(|e| e.as_array()).map(|e| e.len() == 1 && e[0].is_string()).unwrap_or(false))
+                };
+                if o.len() == 1 && bs.len() >= 2 && bs.iter().all(member) {
+                    return true;
+                }
                 return o.len() == 1 && (bs.len() == 2 || bs.len() == 3) && bs.iter().all(|b| b.get("type") == Some(&json!("string")) && (b.get("format").is_some() || b.get("pattern").and_then(|p| p.as_str()).and_then(gs::find_pattern).is_some()));
             }
             if o.get("type") != Some(&json!("string")) {
